@@ -17,6 +17,9 @@ def outcome(f):
         return vals.classify(e)
 
 
+NONDETERMINISTIC_OPS = {1, 2, 3}      # sign with OpenSSL's random nonce (see impl_run.py)
+
+
 def run(op, a):
     if op in (1, 2):
         template, secrets, m, tv, idx, hts, tv2, idx2, wrongkey = a[:9]
